@@ -1,7 +1,7 @@
 (* C01 — 8-bit symmetric quantization is a nearest-grid-point projection.
    Statements only; proofs are in Proofs/.  [src_*] are the definitions generated from the current
    source; TieNum proves them convertible with the model the lemmas are about. *)
-From Coq Require Import String List ZArith Bool Reals.
+From Coq Require Import String List ZArith Bool Reals Lia.
 From QV Require Import Lib.Res Lib.Tensor Lib.ND Lib.NDFacts Lib.Num Lib.QTensor Model.Quant
      Proofs.QuantProofs Proofs.RealNum.
 From QD Require Import GenNum TieC01.
@@ -42,3 +42,46 @@ Theorem C01_saturates_int8_exact : forall x s : R, (0 < s)%R ->
   ((127 <= x / s)%R -> symq qint8 x s = 127%R) /\ ((x / s <= -128)%R -> symq qint8 x s = (-128)%R).
 Proof. exact sym_int8_saturates_R. Qed.
 Print Assumptions C01_saturates_int8_exact.
+
+(* (5) IEEE arithmetic (Flocq), qint8, for float32 / float16 / bfloat16: for every finite x and every
+       finite positive scale whose grid is representable (128*s <= largest finite value):
+       the code is an integer k of [-128,127] stored exactly (no wrap), the dequantized value is
+       finite, and it is a closest grid point up to the stated rounding slack
+         2(u|x| + s*eta) + (u|s*k| + eta),   u = 2^-prec, eta = half the smallest subnormal.
+       A float quotient that overflows to infinity saturates to the end point (case of the proof). *)
+From Flocq Require Import Core IEEE754.BinarySingleNaN.
+From QV Require Import Float.F Proofs.FloatFacts Proofs.C01Float.
+
+Definition C01_float_statement (prec emax : Z) (NF : Num (binary_float prec emax))
+           (code : storage -> binary_float prec emax -> Z) : Prop :=
+  forall x s : binary_float prec emax,
+  is_finite x = true -> is_finite s = true -> (0 < B2R s)%R -> (128 * B2R s <= Fmax prec emax)%R ->
+  exists k : Z, (-128 <= k <= 127)%Z /\ B2R (@symq _ NF qint8 x s) = IZR k
+    /\ is_finite (@symq _ NF qint8 x s) = true
+    /\ code SInt8 (@symq _ NF qint8 x s) = k
+    /\ is_finite (@symdq _ NF qint8 x s) = true
+    /\ forall v : Z, (-128 <= v <= 127)%Z ->
+       (Rabs (B2R (@symdq _ NF qint8 x s) - B2R x) <=
+        Rabs (B2R s * IZR v - B2R x)
+        + (2 * (uro prec * Rabs (B2R x) + B2R s * eta prec emax)
+           + (uro prec * Rabs (B2R s * IZR k) + eta prec emax)))%R.
+
+Theorem C01_nearest_int8_float32 : C01_float_statement 24 128 Num32 f32_code.
+Proof. exact (qint8_nearest_float 24 128 Hp24 Hpe24 ltac:(lia) ltac:(lia)). Qed.
+Print Assumptions C01_nearest_int8_float32.
+
+Theorem C01_nearest_int8_float16 : C01_float_statement 11 16 Num16 f16_code.
+Proof. exact (qint8_nearest_float 11 16 Hp11 Hpe11 ltac:(lia) ltac:(lia)). Qed.
+Print Assumptions C01_nearest_int8_float16.
+
+Theorem C01_nearest_int8_bfloat16 : C01_float_statement 8 128 NumB16 bf16_code.
+Proof. exact (qint8_nearest_float 8 128 Hp8 Hpe8 ltac:(lia) ltac:(lia)). Qed.
+Print Assumptions C01_nearest_int8_bfloat16.
+
+(* non-vacuity: float16 x = 0.3, s = 0.01 satisfy the hypotheses; x = 3.0 saturates at code 127 *)
+Example C01_float_hyps_satisfiable :
+  let x := f16_of_bits 13517 in let s := f16_of_bits 8479 in
+  is_finite x = true /\ is_finite s = true /\
+  f16_code SInt8 (@symq _ Num16 qint8 x s) = 30%Z /\
+  f16_code SInt8 (@symq _ Num16 qint8 (f16_of_bits 16896) s) = 127%Z.
+Proof. vm_compute. repeat split. Qed.
